@@ -238,7 +238,7 @@ func c19Encode(r *rand.Rand, v string) string {
 		default:
 			enc = r.Intn(6) == 0
 		}
-		if enc {
+		if enc && c < 0x80 { // bytes of a multi-byte rune stay as they are: the result is valid UTF-8 (names travel inside JSON)
 			fmt.Fprintf(&sb, c19Pick(r, []string{"%%%02x", "%%%02X"}), c)
 		} else {
 			sb.WriteByte(c)
@@ -1082,7 +1082,8 @@ func c19FileContains(p, mk string) bool {
 
 func c19Tags(tok []string) Result {
 	bad := Result{Out: "bad-op", Tags: []string{"bad-op"}}
-	if len(tok) < 3 || (tok[1] != "same" && tok[1] != "prom" && tok[1] != "fresh") {
+	// at least one key: what the engine does with a datapoint WITHOUT tags is not this property's business
+	if len(tok) < 4 || (tok[1] != "same" && tok[1] != "prom" && tok[1] != "fresh") {
 		return bad
 	}
 	mode := tok[1]
